@@ -130,7 +130,7 @@ impl SrcKind {
             "pipe" => SrcKind::Pipe,
             "tcp" => SrcKind::Tcp,
             "unix" => SrcKind::Unix,
-            "udp" => SrcKind::Udp,
+            "udp" | "udpf" => SrcKind::Udp,
             "file" => SrcKind::File,
             _ => return None,
         })
@@ -181,6 +181,8 @@ struct Src {
     rpos: usize,
     /// dgram: datagrams sent and not yet matched
     dgrams: VecDeque<Vec<u8>>,
+    /// `udpf`: the multishot stream of this UDP socket is `recv_from_multi` (io_uring multishot recvmsg)
+    from_multi: bool,
     /// data may have been consumed into buffers nobody saw (cancelled op, dropped stream, error)
     lossy: bool,
     /// bytes (stream) or datagrams (dgram) the harness believes are unread in the kernel: only used
@@ -455,9 +457,34 @@ fn make_src(sys: &Sys, kind: SrcKind, idx: usize, size: usize) -> io::Result<Src
         sent,
         rpos: 0,
         dgrams: VecDeque::new(),
+        from_multi: false,
         lossy: false,
         seq: 0,
     })
+}
+
+thread_local! {
+    /// payload of the last `recv_from_multi` item (the handle's own bytes start with the recvmsg header)
+    static PAYLOAD: RefCell<Option<Vec<u8>>> = const { RefCell::new(None) };
+}
+
+/// `recv_from_multi` as a stream of handles: the payload goes through `PAYLOAD`, the handle is the item's buffer
+struct FromMulti<S>(Pin<Box<S>>);
+
+impl<S: Stream<Item = io::Result<compio_driver::op::RecvFromMultiResult>>> Stream for FromMulti<S> {
+    type Item = io::Result<BufferRef>;
+
+    fn poll_next(mut self: Pin<&mut Self>, cx: &mut Context<'_>) -> Poll<Option<Self::Item>> {
+        match self.0.as_mut().poll_next(cx) {
+            Poll::Ready(Some(Ok(m))) => {
+                PAYLOAD.with(|p| *p.borrow_mut() = Some(m.data().to_vec()));
+                Poll::Ready(Some(Ok(compio_buf::IntoInner::into_inner(m))))
+            }
+            Poll::Ready(Some(Err(e))) => Poll::Ready(Some(Err(e))),
+            Poll::Ready(None) => Poll::Ready(None),
+            Poll::Pending => Poll::Pending,
+        }
+    }
 }
 
 /// extend a reference to a ref-counted endpoint to 'static: a clone of the `Rc` lives in `Src::rx` and is dropped after
@@ -525,7 +552,11 @@ fn open_stream(src: &mut Src, len: usize) -> Option<Strm> {
         }
         Rx::Udp(r) => {
             let r = unsafe { extend::<compio_net::UdpSocket>(r) };
-            Box::pin(r.recv_multi(len))
+            if src.from_multi {
+                Box::pin(FromMulti(Box::pin(r.recv_from_multi())))
+            } else {
+                Box::pin(r.recv_multi(len))
+            }
         }
         Rx::File(_) => return None,
     })
@@ -576,8 +607,10 @@ impl Runner<'_> {
             fail(self.ex, &self.tainted, "C07:harness", "cannot read buffer_id from Debug of BufferRef");
             return "noid".into();
         };
-        let len = b.len();
-        let data: Vec<u8> = b.to_vec();
+        let (len, data): (usize, Vec<u8>) = match PAYLOAD.with(|p| p.borrow_mut().take()) {
+            Some(d) => (d.len(), d),
+            None => (b.len(), b.to_vec()),
+        };
         let full = b.as_uninit();
         let ptr = full.as_ptr() as usize;
         let cap = full.len();
@@ -840,8 +873,13 @@ impl Runner<'_> {
                 if sys.released || i != sys.srcs.len() || i >= 8 || size > 4096 {
                     return "bad".into();
                 }
+                let from_multi = w[2] == "udpf";
                 match make_src(sys, kind, i, size) {
-                    Ok(s) => {
+                    Ok(mut s) => {
+                        s.from_multi = from_multi;
+                        if from_multi {
+                            self.ex.tag("src:udp-recv_from_multi");
+                        }
                         sys.srcs.push(Some(s));
                         self.ex.tag(format!("src:{kind:?}"));
                         self.finish_line("ok".into())
@@ -906,6 +944,7 @@ impl Runner<'_> {
                     sent: vec![],
                     rpos: 0,
                     dgrams: VecDeque::new(),
+                    from_multi: s.from_multi,
                     lossy: false,
                     seq: 0,
                 };
@@ -1340,6 +1379,33 @@ impl Runner<'_> {
                     return "bad".into();
                 }
                 self.release();
+                self.finish_line("ok".into())
+            }
+            // session 3 (seed C07-5a): the Proactor is dropped while the driver still owns the ops of the dropped
+            // futures / streams (nothing is polled between the drops and `Drop for Proactor`): their buffers are
+            // dropped AFTER `BufferPoolRoot::release`
+            ["arelease"] => {
+                let sys = self.sys.as_mut().unwrap();
+                if sys.released {
+                    return "bad".into();
+                }
+                self.ex.tag("release:abrupt");
+                let rt = sys.rt.take().unwrap();
+                rt.enter(|| {
+                    sys.srcs.clear();
+                });
+                drop(rt);
+                sys.released = true;
+                // M9 (implementation only): with no live handle every buffer must be deallocated right now
+                if sys.held.is_empty() {
+                    sys.pool = None;
+                    ALLOC.with(|a| {
+                        let a = a.borrow();
+                        if a.allocs != a.deallocs || !a.live.is_empty() {
+                            fail(self.ex, &self.tainted, "C07:teardown-leak", format!("Proactor dropped with in-flight managed ops and no live handle: {} buffers allocated, {} deallocated, {} still live", a.allocs, a.deallocs, a.live.len()));
+                        }
+                    });
+                }
                 self.finish_line("ok".into())
             }
             _ => "bad".into(),
@@ -2028,6 +2094,73 @@ fn ring_available() -> Result<(), String> {
     if ok { Ok(()) } else { Err("a managed read through the buffer ring did not work".into()) }
 }
 
+/// managed ops in flight (pending reads, cancelled-but-unreaped reads, a multishot stream, held handles or none), then
+/// the Proactor is dropped at once; afterwards the handles are dropped.  Every buffer must be deallocated exactly once.
+fn gen_abrupt_release(rng: &mut Rng, kind: &str, n: u64, len: u64, sk: &str) -> Vec<String> {
+    let mut lines = vec![format!("init {kind} {n} {len}"), format!("src 0 {sk} 0"), "src 1 pipe 0".to_string()];
+    let hold = rng.chance(1, 2) && n >= 2;
+    if hold {
+        // a user handle that outlives the Proactor
+        lines.push("write 1 1".into());
+        lines.push("read 1 1".into());
+        lines.push("await 1".into());
+    }
+    match rng.below(3) {
+        0 => {
+            lines.push(format!("read 0 {}", rng.pick(&[0, 1, len])));
+        }
+        1 => {
+            lines.push(format!("open 0 {}", if sk == "pipe" { 0 } else { *rng.pick(&[0, len]) }));
+            lines.push("next 0".into());
+        }
+        _ => {
+            lines.push(format!("read 0 {}", rng.pick(&[0, 1, len])));
+            if n >= 3 || !hold && n >= 2 {
+                lines.push("alias 2 0".into());
+                lines.push(format!("read 2 {}", rng.pick(&[0, 1, len])));
+            }
+        }
+    }
+    lines.push("arelease".into());
+    if hold {
+        lines.push(format!("dropn {}", rng.below(16)));
+    }
+    lines
+}
+
+/// UDP `recv_from_multi`: the user keeps every received datagram while more datagrams arrive than the pool has buffers:
+/// held contents must not change (canary), the (np+1)-th item is `ResourceBusy`, after a drop the stream continues
+fn gen_dgram_multi_hold(rng: &mut Rng, kind: &str, n: u64) -> Vec<String> {
+    let mut lines = vec![format!("init {kind} {n} 256"), "src 0 udpf 0".to_string(), "open 0 0".to_string(), "nextw 0".to_string()];
+    let np = n.next_power_of_two();
+    let one_by_one = rng.chance(1, 2);
+    let total = np + 1 + rng.below(3);
+    if one_by_one {
+        for _ in 0..total {
+            lines.push(format!("write 0 {}", rng.range(1, 33)));
+            lines.push("nextw 0".into());
+        }
+    } else {
+        for _ in 0..total {
+            lines.push(format!("write 0 {}", rng.range(1, 33)));
+        }
+        for _ in 0..total {
+            lines.push("nextw 0".into());
+        }
+    }
+    lines.push("nextw 0".into());
+    lines.push(format!("dropn {}", rng.below(16)));
+    lines.push("nextw 0".into());
+    lines.push("nextw 0".into());
+    lines.push(format!("dropn {}", rng.below(16)));
+    lines.push(format!("write 0 {}", rng.range(1, 33)));
+    lines.push("nextw 0".into());
+    if rng.chance(1, 2) {
+        lines.push("dstream 0".into());
+    }
+    lines
+}
+
 fn generate(tier: &str, rng: &mut Rng) -> Vec<Case> {
     let thorough = tier == "thorough";
     let mut cases = vec![];
@@ -2125,6 +2258,29 @@ fn generate(tier: &str, rng: &mut Rng) -> Vec<Case> {
                 let len = *rng.pick(&lens[..4]);
                 cases.push(Case { name: format!("stream-exhaust-{kind}-{sk}-{rep}"), lines: gen_stream_exhaust(rng, kind, n, len, sk) });
             }
+        }
+    }
+    // session 3, seed C07-5a: Proactor dropped while the driver owns ops that hold pool buffers
+    for kind in ["fb", "ring"] {
+        if kind == "ring" && !ring_ok {
+            continue;
+        }
+        for (c, sk) in ["udp", "tcp", "unix", "pipe"].iter().enumerate() {
+            for rep in 0..(if thorough { 8 } else { 2 }) {
+                let n = if rep == 0 { [4, 2, 1, 8][c] } else { rng.range(1, 16) };
+                let len = *rng.pick(&lens[..4]);
+                cases.push(Case { name: format!("abrupt-release-{kind}-{sk}-{rep}"), lines: gen_abrupt_release(rng, kind, n, len, sk) });
+            }
+        }
+    }
+    // session 3, seed C07-5b: UDP `recv_from_multi` (multishot recvmsg) with the user holding buffers while the ring wraps
+    for kind in ["ring", "fb"] {
+        if kind == "ring" && !ring_ok {
+            continue;
+        }
+        for rep in 0..(if thorough { 32 } else { 6 }) {
+            let n = if rep < 3 { [2, 1, 4][rep as usize] } else { rng.range(1, 16) };
+            cases.push(Case { name: format!("dgram-multi-hold-{kind}-{rep}"), lines: gen_dgram_multi_hold(rng, kind, n) });
         }
     }
     // (the raw `take` / `reset` API applied to pool-owned ids is outside the programs C07 quantifies over:
